@@ -169,6 +169,47 @@ theorem lfp_conv_of_symm (hsym : ∀ a b, R a b = R b a) :
   have : conv R = R := by funext a b; exact (hsym b a)
   rw [this]
 
+/-! ### The distance variants against the boolean answer -/
+
+/-- a finite distance exactly on the boolean answer: the support of the distance
+    function returned by the distance variants IS the set the boolean variants return -/
+theorem dist_isSome_iff_mem_lfp (hc : Complete states) (s : σ) :
+    (dist states R init s).isSome = true ↔ s ∈ lfp states R init := by
+  rw [lfp_mem_iff hc]
+  constructor
+  · intro h
+    cases hd : dist states R init s with
+    | none => rw [hd] at h; exact absurd h (by simp)
+    | some n => exact (((dist_eq_shortest hc s n).mp hd).1).reachable
+  · intro h
+    cases hd : dist states R init s with
+    | none => exact absurd h ((dist_none_iff hc s).mp hd)
+    | some n => rfl
+
+/-- distance 0 exactly on the initial set -/
+theorem dist_zero_iff (hc : Complete states) (s : σ) :
+    dist states R init s = some 0 ↔ s ∈ init := by
+  rw [dist_eq_shortest hc]
+  constructor
+  · rintro ⟨hp, _⟩
+    cases hp with
+    | base h => exact h
+  · intro h
+    exact ⟨.base h, fun m _ => Nat.zero_le m⟩
+
+/-- a larger initial set never increases a distance -/
+theorem dist_mono_init (hc : Complete states) (h : ∀ s, s ∈ init → s ∈ init') {s : σ} {n : Nat}
+    (hd : dist states R init s = some n) : ∃ m, m ≤ n ∧ dist states R init' s = some m := by
+  have hp := ((dist_eq_shortest hc s n).mp hd).1
+  have hp' : PathLen R init' n s := by
+    clear hd
+    induction hp with
+    | base hs => exact .base (h _ hs)
+    | step _ hst ih => exact .step ih hst
+  cases hd' : dist states R init' s with
+  | none => exact absurd hp'.reachable ((dist_none_iff hc s).mp hd')
+  | some m => exact ⟨m, ((dist_eq_shortest hc s m).mp hd').2 n hp', rfl⟩
+
 end
 
 /-! ## Non-vacuity: a concrete three-state space meets every hypothesis -/
